@@ -657,6 +657,15 @@ func (x *Exec) genArgs(g *GenFunc, args []Val, res *Val, olds map[int]Val, fr *F
 				x.fail("loop %d is not a range loop", x.curLoop.ord)
 			}
 			out = append(out, x.readAlloc(fr, st, al))
+		case "localaddr":
+			if fr == nil {
+				x.fail("%s used outside a loop clause", a.Name)
+			}
+			al := x.localAlloc(fr, a.Var.Pos())
+			if al == nil {
+				x.fail("local variable %s has no cell at this loop", a.Name)
+			}
+			out = append(out, Val{C: []*Term{BV(int64(fr.allocs[al]), 32), BV(0, 64)}})
 		case "local":
 			if fr == nil {
 				x.fail("local %s used outside a loop clause", a.Name)
